@@ -34,6 +34,8 @@ struct WorldSpec
   int onNodes = 0;   // data placed exactly on target nodes (for conditioning checks)
   uint64_t seed = 1; // sub-seed for coordinates and values
   double range = 3.;
+  int drift = 0;     // 0 none, 1 universality condition, 2 linear drift   (op.I(16), absent in older plans)
+  int tightNeigh = 0; // moving neighbourhood with a small radius: some targets get too few data  (op.I(17))
 };
 
 inline WorldSpec specFromOp(const Op& op)
@@ -58,6 +60,8 @@ inline WorldSpec specFromOp(const Op& op)
   w.onNodes = M(op.I(13), 2);
   w.seed = (uint64_t)op.I(14, 1) * 2654435761ULL + 17;
   w.range = 1.5 + M(op.I(15), 5);
+  w.drift = M(op.I(16, 0), 3);
+  w.tightNeigh = M(op.I(17, 0), 3) == 2;
   return w;
 }
 
@@ -191,6 +195,7 @@ inline void buildWorld(World& W, const WorldSpec& w)
   }
   W.model = buildModel(w);
   if (W.model != nullptr && w.nfex > 0) W.model->setDriftIRF(0, w.nfex);
+  else if (W.model != nullptr && w.drift > 0) W.model->setDriftIRF(w.drift - 1, 0);
   if (w.neighKind == 0) W.neigh = NeighUnique::create(false);
   else
   {
@@ -198,7 +203,8 @@ inline void buildWorld(World& W, const WorldSpec& w)
     // outside 2-D the isotropic coefficients are passed explicitly (see DESIGN, defects outside the claimed properties)
     VectorDouble coeffs;
     if (ndim != 2) coeffs = VectorDouble(ndim, 1.);
-    W.neigh = NeighMoving::create(false, 8 + (int)r.below(6), w.range * 3. + 2., 1, 1, ITEST, coeffs);
+    double radius = w.tightNeigh ? 0.9 + 0.3 * w.range : w.range * 3. + 2.;
+    W.neigh = NeighMoving::create(false, 8 + (int)r.below(6), radius, 1, 1, ITEST, coeffs);
   }
 }
 
